@@ -189,6 +189,9 @@ def fault_positions(dic, msgdef, inst, rnd=None):
                 if node["strict"] and not is_first_of_item:
                     out.append(("missing-required-group", d, path, idx, None))
                 out.append(("group-given-as-plain-field", d, path, idx, None))
+                # the group is there but has no item (NoXxx=0 on the wire; the library's own NumInGroup type is positive): a required
+                # group given that way is a missing group, an optional one carries a count outside its type
+                out.append(("required-group-without-items" if node["strict"] else "group-without-items", d, path, idx, None))
         out.append(("unknown-tag", d, path, len(lvl), unknown))
         if foreign is not None:
             out.append(("tag-not-allowed-in-message" if not path else "foreign-member-in-item", d, path, len(lvl), foreign))
@@ -214,6 +217,8 @@ def apply_fault(inst, fault):
         lvl[idx][1] = [[[{"tag": lvl[idx][0]["tag"], "kind": "field"}, "1"]]] if False else [[[dict(lvl[idx][0]), "1"]]]
     elif cls == "group-given-as-plain-field":
         lvl[idx][1] = "1"
+    elif cls in ("required-group-without-items", "group-without-items"):
+        lvl[idx][1] = []
     elif cls == "unknown-tag":
         lvl.insert(idx, [{"tag": extra, "kind": "field"}, "x"])
     elif cls in ("tag-not-allowed-in-message", "foreign-member-in-item"):
